@@ -180,6 +180,12 @@ func (a *AvahiProvider) announce(serviceName string, port int, txt []string) err
 
 	logging.Log().Debug("mdns: using avahi")
 
+	// an update replaces the current announcement
+	if a.avEntryGroup != nil {
+		a.avServer.EntryGroupFree(a.avEntryGroup)
+		a.avEntryGroup = nil
+	}
+
 	var btxt [][]byte
 	for _, t := range txt {
 		btxt = append(btxt, []byte(t))
@@ -236,6 +242,8 @@ func (a *AvahiProvider) avahiCallback(event avahi.Event) {
 	// the server was shutdown, set it to nil so we don't try to call free functions
 	// on shutting down a currently running resolve
 	cb := a.resolveCB
+	// the entry group is gone with the connection
+	a.avEntryGroup = nil
 	a.mux.Unlock()
 
 	// try to reconnect until successull
